@@ -34,6 +34,20 @@ LAYOUT_ATTRS = {"strides", "flags", "data", "ctypes", "base", "tobytes", "tostri
 # reported only when used in a comparison or as a dtype= argument (see _layout_events)
 LIKE_FUNCS = {"empty_like", "zeros_like", "ones_like", "full_like", "copy", "array", "asarray"}
 
+def _box(roots):
+    """Roots held *inside* a freshly built container ([a, b], (a, b)): the container itself is a new object, so
+    container-level operations on it (append, sort, c[i] = v) never reach the argument; its elements still do."""
+    return frozenset(r if r.startswith("[]") else "[]" + r for r in roots)
+
+
+def _unbox(roots):
+    return frozenset(r[2:] if r.startswith("[]") else r for r in roots)
+
+
+def _plain(roots):
+    return frozenset(r for r in roots if not r.startswith("[]"))
+
+
 SCALAR_ANNOTATIONS = {"int", "float", "bool", "str", "callable", "dict", "complex"}
 
 
@@ -273,7 +287,12 @@ class MutationAnalysis:
             base = self._taint(fi, e.value, st)
             if not base:
                 return base
-            return base if self._index_is_basic(fi, e.slice) else frozenset()
+            boxed = frozenset(r for r in base if r.startswith("[]"))
+            out = _plain(base) if self._index_is_basic(fi, e.slice) else frozenset()
+            if boxed:
+                # an element of a container is the aliasing value itself; a slice of it is still a container
+                out |= boxed if isinstance(e.slice, ast.Slice) else _unbox(boxed)
+            return out
         if isinstance(e, ast.Attribute):
             if e.attr in VIEW_ATTRS:
                 return self._taint(fi, e.value, st)
@@ -291,7 +310,7 @@ class MutationAnalysis:
             out = frozenset()
             for v in e.elts:
                 out |= self._taint(fi, v, st)
-            return out
+            return _box(out)
         if isinstance(e, ast.NamedExpr):
             return self._taint(fi, e.value, st)
         if isinstance(e, ast.Call):
@@ -320,6 +339,8 @@ class MutationAnalysis:
                 for p in s.returns:
                     if p in amap:
                         out |= self._taint(fi, amap[p], st)
+                    elif p.startswith("[]") and p[2:] in amap:
+                        out |= _box(self._taint(fi, amap[p[2:]], st))
             return out
         return frozenset()
 
@@ -356,7 +377,7 @@ class MutationAnalysis:
 
         def emit(kind, roots, where, how):
             if rec:
-                for p in sorted(roots):
+                for p in sorted(_plain(roots)):
                     events.append(Event(kind, p, where, how))
 
         def scan_expr(e):
@@ -470,14 +491,14 @@ class MutationAnalysis:
                 else:
                     vt = value_taint if value_taint is not None else self._taint(fi, value, st)
                     for te in t.elts:
-                        bind(te, None, vt)
+                        bind(te, None, _unbox(vt))
             elif isinstance(t, ast.Starred):
                 bind(t.value, value, value_taint)
 
         if n.kind == "for":
             scan_expr(node.iter)
             if label == "iter":
-                bind(node.target, None, self._taint(fi, node.iter, st))
+                bind(node.target, None, _unbox(self._taint(fi, node.iter, st)))
             return st
         if n.kind == "test":
             scan_expr(node)
